@@ -21,6 +21,27 @@ let () = iter_lines (fun line ->
     let prec = int_of_string (List.nth hd 5) in
     let nc = List.length comps in
     let zcomps = List.map (fun (a, b) -> (zi a, zi b)) comps in
+    if kind = 'K' then begin
+      (* jpeg_crop_scanline called twice: prediction of the faithful model (second request tested against the cropped width)
+         and of the documentation (requests are relative to the image row) *)
+      let d = ints (List.nth fs 1) in
+      let m = List.nth d 0 and ocs = List.nth d 4 in
+      let c = ints (List.nth fs 2) in
+      let x1 = List.nth c 1 and w1 = List.nth c 2 and x2 = List.nth c 3 and w2 = List.nth c 4 in
+      let ycc3 = nc = 3 in
+      let grayout = ycc3 && ocs = 3 in
+      (match derive_config gen_scale_chain gen_DCTSIZE (zi w) (zi h) zcomps (zi m) (zi 8) false ycc3 (ycc3 && not grayout) grayout gen_fix_h1 gen_fix_h2 gen_fix_h4 gen_fix_h6 with
+       | Some k when not k.k_bad ->
+         let align = crop_align (nc = 1) k.k_M k.k_hmax in
+         let doc = match recrop_documented k.k_ow align (zi x2) (zi w2) with None -> "err" | Some (a, b) -> Printf.sprintf "%d,%d" (iz a) (iz b) in
+         let fm = match recrop_faithful k.k_ow align (zi x1) (zi w1) (zi x2) (zi w2) with
+           | None -> "first-err"
+           | Some ReErr -> "err"
+           | Some (ReIgnored (a, b)) -> Printf.sprintf "ignored,%d,%d" (iz a) (iz b)
+           | Some (ReOk (a, b)) -> Printf.sprintf "ok,%d,%d" (iz a) (iz b) in
+         Printf.printf "k ow=%d oh=%d doc=%s model=%s\n" (iz k.k_ow) (iz k.k_oh) doc fm
+       | _ -> print_endline "err")
+    end else
     if kind = 'T' then begin
       let a = ints (List.nth fs 1) and b = ints (List.nth fs 2) in
       let sfi = List.nth a 0 in
